@@ -290,10 +290,12 @@ pub fn call_shape(env: &Envelope, other: &Envelope, shape: u64, a: u64, b: u64) 
 }
 
 static D7_PROBES: AtomicU32 = AtomicU32::new(0);
+static D7_PANICS: AtomicU32 = AtomicU32::new(0);
 
 /// Execute a call in a sacrificial child process and return the panic location, if any.
 pub fn probe_in_child(env_bytes: &[u8], other_bytes: &[u8], shape: u64, a: u64, b: u64) -> Option<Option<String>> {
-    if D7_PROBES.fetch_add(1, Ordering::Relaxed) >= 3 {
+    // budget per process: up to 60 child executions, and no more once three of them have panicked
+    if D7_PANICS.load(Ordering::Relaxed) >= 3 || D7_PROBES.fetch_add(1, Ordering::Relaxed) >= 60 {
         return None;
     }
     let exe = std::env::current_exe().ok()?;
@@ -301,6 +303,7 @@ pub fn probe_in_child(env_bytes: &[u8], other_bytes: &[u8], shape: u64, a: u64, 
     let so = String::from_utf8_lossy(&out.stdout).to_string();
     for l in so.lines() {
         if let Some(rest) = l.strip_prefix("PANIC ") {
+            D7_PANICS.fetch_add(1, Ordering::Relaxed);
             return Some(Some(rest.to_string()));
         }
         if l.starts_with("RETURNED") {
@@ -342,6 +345,9 @@ fn push_plain(w: &mut World, ctx: &mut Ctx, env: Envelope, what: &str) -> StepRe
         Ok(r) => r.m,
         Err(_) => M::unknown(Obsc::Some, digest_of(&env)),
     };
+    // the per-document oracles of the armed property (C04: canonical and well-formed after salt / signature /
+    // recipient / type / attachment / request decorations and for adversarially decoded documents)
+    hist::check_doc(ctx, &env, &m, &bytes, what, false);
     ctx.t(&format!("{} -> {} {}B", what, dhex(&digest_of(&env)), bytes.len()));
     ctx.shape_mix(m.shape_hash());
     if w.docs.len() >= hist::MAX_DOCS {
@@ -517,13 +523,15 @@ fn step(w: &mut World, ctx: &mut Ctx, st: &Step) -> StepResult {
             if touches_date(shape) && (d7_prone(&w.docs[d].bytes) || d7_prone(&w.docs[o].bytes)) {
                 ctx.probe("d7-prone-document-met-date-touching-call");
                 // never in this process (the panic would poison the global format context); a few in a child
-                if let Some(Some(loc)) = probe_in_child(&w.docs[d].bytes, &w.docs[o].bytes, shape, a, b) {
-                    ctx.violations.push(crate::core::Violation {
-                        oracle: "C16.no-panic".to_string(),
-                        step: ctx.step,
-                        msg: format!("call shape {} panicked in a child process on a document holding an out-of-range date leaf: {}", shape % N_SHAPES, loc),
-                        signature: loc,
-                    });
+                if ctx.armed("C16") {
+                    if let Some(Some(loc)) = probe_in_child(&w.docs[d].bytes, &w.docs[o].bytes, shape, a, b) {
+                        // which of the many eligible calls gets one of the few child-process probes depends on
+                        // thread timing, so the outcome is reported but never enters the trace hash
+                        let was = ctx.fenced;
+                        ctx.fenced = true;
+                        ctx.violate_sig("C16.no-panic", format!("call shape {} panicked in a child process on a document holding an out-of-range date leaf: {}", shape % N_SHAPES, loc), loc);
+                        ctx.fenced = was;
+                    }
                 }
                 return StepResult::Produced;
             }
